@@ -4,7 +4,7 @@ import C01 as _c01
 
 # the forms with a numeric operand: immediates, displacements, absolute/symbolic addresses, jump targets
 GROUPS = []
-for g in _c01.groups("C06", False) + _c01.jump_groups("C06"):
+for g in _c01.groups("C06", False, ("mov", "add", "cmp")) + _c01.jump_groups("C06"):
     if any(k in g.name for k in (".imm.", ".idx.", ".abs.", ".sym.", ".target")) or g.name.endswith((".idx", ".abs", ".sym")):
         GROUPS.append(g)
 GROUPS.append(Group(name="C06/check_range", unity="C06/u_range.cpp", entry="h_check_range", functions=[("check_range", "asm/common.cpp", "harness (loop-free, all 2^32 values and bounds)")],
